@@ -82,4 +82,6 @@ def groups(tier):
                         functions=["hash_file", "check_file", "ascon_hash_file", "ascon_hasha_file", "ascon_xof_file", "ascon_xofa_file", "to_hex_digit"],
                         assumed=["fopen", "fread", "fgets", "ferror", "fclose", "ascon_hash_*", "ascon_xof_*"],
                         expect_classes=["assertion"]))
+        if lines > 1:
+            gs[-1].reach = False      # vacuity of this harness is established by the one-line groups (a two-line pass costs 20 min and 10 GB)
     return gs
